@@ -29,6 +29,7 @@ from props import e2e
 
 ID = 'C12'
 HARNESS = 'c12'
+SUBSTREAMS = ['c12_rules']        # structural tie of the real checker to Model/Checker.v, rule group by rule group
 COQ_IMPORTS = 'From VRP Require Import Base.Tac Model.Core Spec.Valid Spec.Relations Spec.Mutations.'
 MODEL_TARGETS = ['theories/Spec/Mutations.vo']
 SHARD = 24
@@ -50,7 +51,8 @@ ASSUMPTIONS = ['problem fragment of the e2e generator (reloads, OPTIONAL breaks,
                'without required breaks, recharges, clustering, time-dependent routing; "misplaced break" = a break reported at a '
                'location where no place of a break of the shift is / a break that takes time listed twice / taken out of the tour',
                'arrival / distance / tour-statistic breaches are injected with |d| = 2 (the checker documents a tolerance of 1)',
-               'the bundled checker is not modelled structurally; it is tied to the reference semantics valid_b behaviourally']
+               'the bundled checker is modelled structurally (Model/Checker.v, sub-stream c12_rules) except check_jobs_match and the '
+               'amount-of-breaks rule; those two are tied to the reference semantics valid_b behaviourally only']
 
 
 # ------------------------------------------------------------------------------------------------ phase 1: real solves
@@ -431,7 +433,14 @@ def mut_class(m, sol=None):
     if op == 'MArrival':
         return 'arrival'
     if op == 'MDistance':
-        return 'distance-first-stop' if m['s'] == 0 else 'distance'
+        if m['s'] == 0:
+            return 'distance-first-stop'
+        # finding C12-F19: routing.rs::skip_distance_check switches every distance comparison off when ALL stop distances of the
+        # (breached) solution are 0 - the breach zeroes the only non-zero one
+        if sol is not None and all(st['distance'] + (m['d'] if (k, si) == (m['k'], m['s']) else 0) == 0
+                                   for k, t in enumerate(sol['tours']) for si, st in enumerate(t['stops'])):
+            return 'distance/all-stop-distances-zero'
+        return 'distance'
     if op == 'MStatTour':
         return 'stat-tour-' + FIELDS[m['f']]
     if op == 'MStatTotal':
@@ -1227,15 +1236,25 @@ def classify(c, impl):
     return labs
 
 
-MANIFEST_TEXT = ('Machine-checked proof (Coq, no axioms) that the reference semantics valid_b (Spec/Valid.v: accounting, feasibility '
+MANIFEST_TEXT = ('Machine-checked proof (Coq, no axioms), two layers. (1) Reference: valid_b (Spec/Valid.v: accounting, feasibility '
                  'inputs, replay of schedule / load / distance / statistics; with the relation pinning rules of Spec/Relations.v: valid_r) '
-                 'rejects every single breach of the listed classes (incl. a break reported at another location, a pinned job leaving its tour) at every '
-                 'applicable site of a valid (problem, solution) pair (Properties/C12.v, operators Spec/Mutations.v), plus the exact '
-                 'equivalence of its accounting group with the declarative statement. The bundled Rust checker is tied to that semantics '
-                 'behaviourally on every run: real solver outputs that valid_b accepts (evaluated inside Coq) must be accepted by the real '
-                 'checker, and the same documents with each breach injected at systematically enumerated sites must be rejected.')
-MANIFEST_NOTE = ('Trusted: Coq kernel + vm_compute; JSON->Gallina rendering; harness. The Python mirror of the mutation operators is '
-                 'validated against the Coq operators by fingerprint on every site; the Python twin of rel_viols (which proposes the '
-                 'relation breach sites) is validated against rel_viols on every pair. Not covered: required breaks, recharges. '
-                 'Known findings: the checker never verifies cost and the times.* statistics, nor the cumulative distance of the first stop.')
-MANIFEST_TECHNIQUE = 'Coq proof (every breach class is rejected by the reference semantics) + behavioural tie of the real checker by systematic breach injection'
+                 'rejects every single breach of the listed classes at every applicable site of a valid (problem, solution) pair (operators '
+                 'Spec/Mutations.v), and its accounting group is equivalent to the declarative statement. (2) The bundled Rust checker '
+                 'itself: Model/Checker.v is an executable model of checker/{mod,limits,capacity,routing,assignment,relations,breaks}.rs as '
+                 'written (early exits, skipped first stop, usize underflow = Panic, tolerance 1, fields read); theorems relate the model of '
+                 'each real rule to the reference on explicit fragments: limits sound + complete, routing = a declarative stop-level rule '
+                 'and complete for valid documents, capacity complete, assignment sound (the clauses it establishes), `any` relation rule '
+                 'sound + complete, breach operators rejected BY THE MODEL OF THE REAL RULE (limits, statistic, arrival, distance, load, '
+                 'capacity, unknown / duplicated / dropped job, two tours, assigned-and-unassigned, relation), and a _refuted witness per recorded '
+                 'finding of a modelled rule. Ties on every run: (a) structural - the error classes of the real checker = the error classes '
+                 'of the model, rule group by rule group, on solver output and on every breached document; (b) behavioural - real solver '
+                 'outputs that valid_b accepts must be accepted by the real checker, breached ones rejected.')
+MANIFEST_NOTE = ('Trusted: Coq kernel + vm_compute; JSON->Gallina rendering (and the rendering assumptions listed in the header of '
+                 'Model/Checker.v); harness; projection of error messages to classes by prefix. The Python mirror of the mutation operators is '
+                 'validated against the Coq operators by fingerprint on every site; the Python twin of rel_viols against rel_viols on every pair. '
+                 'Not modelled: check_jobs_match (activity_matcher.rs) and the amount-of-breaks rule; no theorem for sequence / strict relations, '
+                 'breaks, completeness of check_assignment (compared with the code on every case only). Not covered: required breaks, recharges. '
+                 'Known findings C12-F1..F19: e.g. cost / times.* / first-stop distance never verified, all distance checks skipped when every stop '
+                 'distance is 0, valid tours with a job at the departure stop or a merged reload rejected, panic on a reload right after departure.')
+MANIFEST_TECHNIQUE = ('Coq proofs about the reference semantics AND about an executable model of the real checker + structural tie (error classes per rule '
+                      'group, model vs. code) and behavioural tie (accept / reject) by systematic breach injection')
